@@ -665,6 +665,8 @@ func (pc plCase) build() Playlist {
 			}
 		}
 		return m
+	case "long-lines":
+		return longLineCase(pc.Mask, pc.VS)
 	case "server-control":
 		m := mediaF1(0, pc.VS)
 		sc := &MediaServerControl{}
@@ -683,8 +685,69 @@ func (pc plCase) build() Playlist {
 	return nil
 }
 
+// line lengths around the buffer sizes of the usual line readers (bufio.Reader 4 KiB, bufio.Scanner 64 KiB) and one
+// far beyond them
+var longLens = []int{4095, 4096, 4097, 65535, 65536, 65537, 100001}
+
+const longLinePositions = 10
+
+// longLineCase puts one string of the given length (an inline data: URI, a long title, a long codec list) at one
+// position of a playlist: before and after the line that decides the playlist kind, in the first and in a later
+// segment, in a rendition and in a variant.
+func longLineCase(pos int, li int) Playlist {
+	long := func(prefix string) string {
+		n := longLens[li%len(longLens)]
+		b := make([]byte, 0, n)
+		b = append(b, prefix...)
+		for i := 0; len(b) < n; i++ {
+			b = append(b, "ABCDEFGHIJKLMNOPQRSTUVWXYZabcdefghijklmnopqrstuvwxyz0123456789+/"[(i*7+li)%64])
+		}
+		return string(b)
+	}
+	if pos < 6 {
+		m := &Media{Version: 7, TargetDuration: 4, MediaSequence: 3, Map: &MediaMap{URI: "init.mp4"},
+			Segments: []*MediaSegment{{Duration: 4 * time.Second, URI: "s3.mp4"}, {Duration: 3 * time.Second, URI: "s4.mp4"}}}
+		switch pos {
+		case 0:
+			m.Map.URI = long("data:video/mp4;base64,")
+		case 1:
+			m.Segments[0].Key = &MediaKey{Method: MediaKeyMethodAES128, URI: long("data:text/plain;base64,")}
+			m.Segments[1].Key = m.Segments[0].Key // a key stays in force
+		case 2:
+			m.Segments[0].URI = long("https://h/") + ".mp4"
+		case 3:
+			m.Segments[0].Title = long("t ")
+		case 4:
+			m.Segments[1].URI = long("https://h/") + ".mp4"
+		case 5:
+			m.Segments[1].Key = &MediaKey{Method: MediaKeyMethodAES128, URI: long("data:text/plain;base64,")}
+		}
+		return m
+	}
+	mv := &Multivariant{Version: 7, IndependentSegments: true,
+		Variants: []*MultivariantVariant{{Bandwidth: 1000, Codecs: []string{"avc1.42c028", "mp4a.40.2"}, URI: "v1.m3u8", Audio: "aud"},
+			{Bandwidth: 2000, Codecs: []string{"avc1.42c028", "mp4a.40.2"}, URI: "v2.m3u8", Audio: "aud"}},
+		Renditions: []*MultivariantRendition{{Type: MultivariantRenditionTypeAudio, GroupID: "aud", Name: "a", URI: strp("a.m3u8")}}}
+	switch pos {
+	case 6:
+		mv.Renditions[0].URI = strp(long("data:application/vnd.apple.mpegurl;base64,"))
+	case 7:
+		mv.Renditions[0].Name = long("n ")
+	case 8:
+		mv.Variants[0].URI = long("https://h/") + ".m3u8"
+	case 9:
+		mv.Variants[1].URI = long("https://h/") + ".m3u8"
+	}
+	return mv
+}
+
 func c14Cases(tier string) map[string][]plCase {
 	out := map[string][]plCase{}
+	for pos := 0; pos < longLinePositions; pos++ {
+		for li := range longLens {
+			out["long-lines"] = append(out["long-lines"], plCase{Family: "long-lines", Mask: pos, VS: li})
+		}
+	}
 	nvs := 3
 	if tier == "thorough" {
 		nvs = 5
